@@ -89,6 +89,7 @@ type world struct {
 	notes     []string
 	hash      uint64
 	waitEarly string
+	waitTms   int
 }
 
 func goid() uint64 {
@@ -208,6 +209,17 @@ func (w *world) submitter(l *goz.Limiter) {
 			w.mu.Lock()
 			w.subState = ""
 			w.mu.Unlock()
+		case "WaitT":
+			// timed Wait: may legitimately return before the tasks have finished; what it
+			// leaves behind (a waiter goroutine) must not disturb later calls
+			w.mu.Lock()
+			w.subState = "waitT"
+			w.waitTms = op.D
+			w.mu.Unlock()
+			l.Wait(time.Duration(op.D) * time.Millisecond)
+			w.mu.Lock()
+			w.subState = ""
+			w.mu.Unlock()
 		case "Wait":
 			w.mu.Lock()
 			w.subState = "wait"
@@ -241,6 +253,7 @@ type runInfo struct {
 	panics      int
 	blocked     int
 	tightProbe  int
+	ticks       int
 	diverged    bool
 	newTwice    bool
 	deadlockMsg string
@@ -368,7 +381,19 @@ func runCase(t *testing.T, c *sim.Case, script []int16, strict bool) (*sim.Viola
 						}
 					}
 				}
-				if len(w.parked) == 0 {
+				// the fake clock may be advanced while the submitter sits in a timed Wait
+				tick := false
+				if w.subState == "waitT" {
+					tick = true
+					for _, p := range w.parked {
+						if p.lid == 0 {
+							tick = false
+						}
+					}
+				}
+				if len(w.parked) == 0 && tick {
+					opts = append(opts, -2)
+				} else if len(w.parked) == 0 {
 					// nothing can move but a gate: every worker goroutine is gone or inside a
 					// blocked task, so the tokens in use equal the number of running tasks
 					if strings.HasPrefix(w.subState, "go:") {
@@ -388,6 +413,12 @@ func runCase(t *testing.T, c *sim.Case, script []int16, strict bool) (*sim.Viola
 					opts = append(append(opts, eager...), lazy...)
 				} else {
 					opts = append(opts, eager...)
+					if tick {
+						opts = append(opts, -2)
+					}
+				}
+				if tick && len(w.parked) == 0 {
+					opts = append(append(opts, eager...), lazy...)
 				}
 				choice := int16(-1)
 				if script != nil {
@@ -450,6 +481,13 @@ func runCase(t *testing.T, c *sim.Case, script []int16, strict bool) (*sim.Viola
 							break
 						}
 					}
+				} else if choice == -2 {
+					d := time.Duration(w.waitTms) * time.Millisecond
+					info.ticks++
+					info.steps = step + 1
+					w.mu.Unlock()
+					time.Sleep(d) // every goroutine is durably blocked: the fake clock jumps
+					continue
 				} else {
 					i := int(-choice) - 10
 					w.gateOpen[i] = true
@@ -531,6 +569,7 @@ func gen(r *sim.Rng, tier string) *sim.Case {
 	panicPct := []int{0, 20, 50, 100}[r.N(4)]
 	blockPct := []int{0, 20, 60}[r.N(3)]
 	var prog []sim.Op
+	timed := r.Pct(40) // swarm: some scripts use timed waits
 	for i := 0; i < nScript; i++ {
 		t := sim.Op{Op: "Task", K: r.N(3)}
 		if r.Pct(panicPct) {
@@ -543,6 +582,8 @@ func gen(r *sim.Rng, tier string) *sim.Case {
 		prog = append(prog, sim.Op{Op: "Go", K: i})
 		if r.Pct(20) {
 			prog = append(prog, sim.Op{Op: "Wait"})
+		} else if timed && r.Pct(25) {
+			prog = append(prog, sim.Op{Op: "WaitT", D: []int{1, 5, 50}[r.N(3)]})
 		}
 	}
 	// final phase: drain, then nEff blocking tasks and one more (slot recovery and tightness)
@@ -625,6 +666,7 @@ func TestWorker(t *testing.T) {
 		out.Faults["task_panic_injected"] += info.panics
 		out.Faults["task_stalled_on_gate"] += info.blocked
 		out.Faults["gate_opened_by_scheduler"] += info.gateOpens
+		out.Faults["clock_advanced_past_wait_timeout"] += info.ticks
 		out.Probes["go_blocked_with_all_slots_busy"] += info.tightProbe
 		if info.maxParked >= 3 {
 			out.Probes["3+_goroutines_parked_at_once"]++
